@@ -335,6 +335,9 @@ func Coordinate(opt Options, plan *Plan, store *kf.Store) int {
 						if err != nil {
 							// worker died or hung in lastUnit
 							wk.kill()
+							if lastUnit >= 0 {
+								fmt.Fprintf(os.Stderr, "harness: worker lost in unit %d (%s): %v\n", lastUnit, plan.Describe(lastUnit), err)
+							}
 							mu.Lock()
 							if lastUnit >= 0 {
 								crashed = append(crashed, lastUnit)
